@@ -193,6 +193,27 @@ def p3_final_report(F, r):
         r.fail("create_solution: unassigned", "the unassigned list is not written", F.loc(cs))
 
 
+ID_SITES = {"read_locks", "read_optional_breaks", "read_specific_job_places", "get_reload_resources", "try_match_point_job"}
+
+
+def p4_conditional_job_ids(F, r):
+    """the writer(s) and re-reader of conditional job ids (`<vehicle>_<type>_<shift>_<index>`) use one template"""
+    import re
+    sites = [a for a in F.attrs if a["t"] == "fmt" and a["file"].startswith("vrp-pragmatic/src/format") and a["func"].split("::")[-1] in ID_SITES and "_" in a["template"]
+             and re.fullmatch(r"(\{[^}]*\}|[a-z]+)(_(\{[^}]*\}|[a-z]+))+", a["template"])]
+    if len(sites) < 5:
+        raise AnchorError(f"only {len(sites)} conditional-id templates found")
+    shapes = set()
+    for a in sites:
+        segs = re.findall(r"\{[^}]*\}|[a-z]+", a["template"])
+        shape = tuple("{}" if sgm.startswith("{") else "lit" for sgm in segs)
+        inst = f"{a['func'].split('::')[-1]}: {a['template']}"
+        if len(segs) == 4 and shape[0] == "{}" and shape[2] == "{}" and shape[3] == "{}":
+            r.ok(inst, "vehicle_type_shift_index")
+        else:
+            r.fail(inst, "conditional job id is built/parsed with a template that differs from `<vehicle>_<type>_<shift>_<index>`: breaks/reloads written by one reader are not found by the other (lost or duplicated stops)", f"{a['file']}:{a['line']}")
+
+
 def run(ctx):
     ctx.explanation = (
         "Conservation shape of job movements over all MIR of vrp-core/pragmatic: every function (closures merged) that removes jobs from a job place "
@@ -202,4 +223,5 @@ def run(ctx):
     ctx.not_decided = "exact-once semantics through value-level bookkeeping (a wrong predicate in a retain), vehicle/shift existence, break/reload identity."
     ctx.assumptions += ["job places are the four SolutionContext collections and tours; std collection method names classify removal/arrival"]
     ctx.run("C02-P1", "jobs removed from one place arrive in another (pairing with guard neighbourhood and reasoned table)", p1_pairing, floor=25)
+    ctx.run("C02-P4", "conditional job id scheme shared by all builders and the re-reader", p4_conditional_job_ids, floor=5)
     ctx.run("C02-P3", "final report: unassigned ∪ required reported; every route reported and written", p3_final_report, floor=4)
